@@ -34,6 +34,14 @@ pub enum Op {
     Solve { h: usize },
     /// solve_all(handle)
     SolveAll { h: usize },
+    /// stop_query(): the application's stop button. `after == 0`: called by the user thread here,
+    /// between two operations. `after == k > 0`: armed here, and called at the k-th goal attempt
+    /// of the next answer-requesting operation (another thread of the application presses the
+    /// button while the search runs); disarmed when that operation ends earlier.
+    Stop {
+        #[serde(default)]
+        after: u64,
+    },
     /// The user thread does nothing for `ms` virtual milliseconds.
     Idle { ms: u64 },
     /// The handle (solution node and query) is dropped.
